@@ -196,6 +196,15 @@ inline KV genCase11(bool forTsan)
         s.abs_tol    = 1e-10;
         s.rel_tol    = 1e-10;
         s.reduction  = rpick({1.0, 0.5, 0.3});
+        // whole solves whose finest level (and, with nr_exp = 8, level 1 as well) lies above the 10 000-node threshold of
+        // the `omp parallel if (n > 10'000)` kernels in the cycles, transfers and vector updates; few iterations
+        if (rweighted({forTsan ? 4 : 5, 1}) == 1) {
+            s.nr_exp    = forTsan ? 8 : rpick({7, 8});
+            s.div       = 0;
+            s.max_its   = forTsan ? 1 : 3;
+            s.reduction = rpick({1.0, 1.0, 0.5});
+            s.R0        = s.Rmax * 1e-2;
+        }
         s.put(c, "s_");
         return c;
     }
